@@ -328,7 +328,8 @@ def binding_selfcheck(ctx, ev, orc):
 # ---------------------------------------------------------------------------
 INV_STRUCT = ["ReqCaseWellFormed", "ReqSvecCongruent", "ReqSvecShortestSets", "ReqMultiplicity", "ReqMasses",
               "ReqMassesPropagate", "CommQComplete", "PrimRotationsIntegral"]
-INV_C02 = ["ImplEqFourierAtCommensurate", "ImplEqFourierShortRange", "ImplEqFourierAtCommensurateQ"]
+INV_C02 = ["ImplEqFourierAtCommensurate", "ImplEqFourierShortRange", "ImplEqFourierAtCommensurateQ",
+           "SeriesPermSym", "SeriesSumRule", "ChiralBlocksAsymmetric"]
 INV_C03 = ["Hermitian", "HermitianBeforeSymmetrisation", "TimeReversal", "GPeriodic", "ASR", "GenBreaksASR",
            "PointGroupDefinition", "PointGroupCovariance", "Scaling"]
 INV_ASSUME = ["AssumeSearchComplete"]
@@ -350,6 +351,7 @@ JUDGEMENT_OF = {
     "TimeReversal": "TimeReversal", "GPeriodic": "GPeriodic", "ASR": "ASR", "GenBreaksASR": "GenBreaksASR",
     "PointGroupDefinition": "PointGroupDefinition", "PointGroupCovariance": "PointGroupCovariance",
     "PrimRotationsIntegral": "PrimRotationsIntegral", "Scaling": "Scaling", "ConformsMaps": "ConformsMaps", "TermsAreSpringsTerms": "TermsAreSpringsTerms",
+    "SeriesPermSym": "SeriesPermSym", "SeriesSumRule": "SeriesSumRule", "ChiralBlocksAsymmetric": "ChiralBlocksAsymmetric",
 }
 
 
